@@ -722,10 +722,7 @@ Proof.
   - destruct (take_trailing_fragments w) as [w1 frags] eqn:Et. intros H Hp.
     bind_inv H ls Hls. ok_inv H.
     assert (Hfr : flat_map elem_text frags = []).
-    { unfold take_trailing_fragments in Et. destruct (word_is_empty (wword w)) eqn:Ewe.
-      - injection Et as _ <-. apply no_content_text. unfold word_is_empty in Ewe.
-        destruct (existsb elem_has_content (wword w)); [discriminate|reflexivity].
-      - injection Et as _ <-. reflexivity. }
+    { rewrite ttf_eq in Et. injection Et as _ <-. apply no_content_text, tfr_snd_nocontent. }
     destruct (extend_lines_spec (map RText ls) (set_wrapping s None) Hp) as (A & B & C & D).
     sprj. split; [exact C|]. split.
     { unfold ptxt in *. sprj. rewrite flat_map_app, Hfr, B. reflexivity. }
